@@ -629,9 +629,178 @@ static void run_case(uint64_t idx, vf_rng *r)
 	C = 0;
 }
 
-uint64_t vf_cases(void) { return vf_thorough ? 400000 : 24000; }
+
+/* ------------------------------------------------------------------ raw (codec-less) mpt::encode_queue */
+/* push() takes what fits (pending), push(0,0) commits, push(1,0) rolls back, trim() hands finished bytes out.
+ * Byte model: finished F, pending P; content == F+P, done() == |F|, scratch == |P|. */
+struct Raw {
+	EQ *eq;
+	bytes F, P, committed;
+	size_t taken;
+	uint8_t next;
+};
+static std::string rawdesc(Raw &w)
+{
+	char b[240];
+	snprintf(b, sizeof(b), "raw eq{max=%zu off=%zu len=%zu done=%zu scratch=%zu} model{finished=%zu pending=%zu}", w.eq->max, w.eq->off, w.eq->len,
+	         w.eq->fin(), w.eq->scratch(), w.F.size(), w.P.size());
+	return b;
+}
+static void raw_check(Raw &w, const char *op)
+{
+	vf_count("monitor:cxx-raw-model-compare", 1);
+	VF_CHECK(w.eq->len <= w.eq->max && w.eq->off <= w.eq->max, "cxx:raw:range", "after %s: %s", op, rawdesc(w).c_str());
+	VF_CHECK(w.eq->done() == w.F.size() && w.eq->scratch() == w.P.size() && w.eq->len == w.F.size() + w.P.size(), "cxx:raw:accounting",
+	         "after %s: finished/pending sizes differ from the byte model: %s", op, rawdesc(w).c_str());
+	bytes c = content(*w.eq), m = w.F;
+	m.insert(m.end(), w.P.begin(), w.P.end());
+	VF_CHECK(c == m, "cxx:raw:content", "after %s: content %s, model %s; %s", op, hex(c).c_str(), hex(m).c_str(), rawdesc(w).c_str());
+	if (is_wrapped(*w.eq)) vf_count("state:cxx-raw-wrapped", 1);
+}
+/* returns bytes accepted */
+static size_t raw_push(Raw &w, size_t n, const char *why)
+{
+	size_t nfree = w.eq->max - w.eq->len, exp = n < nfree ? n : nfree;
+	size_t off = w.eq->off, len = w.eq->len, max = w.eq->max;
+	uint8_t *d = static_cast<uint8_t *>(vf_xalloc(n));
+	for (size_t i = 0; i < n; i++) { if (!++w.next) w.next = 1; d[i] = w.next; }
+	vf_at("encode_queue::push");
+	vf_count("encode_queue::push(raw)", 1);
+	ssize_t ret = w.eq->push(n, d);
+	vf_fp_u64(0x6000000 | n);
+	vf_log("raw push(%zu) [%s] = %zd | %s", n, why, ret, rawdesc(w).c_str());
+	if (!nfree) {
+		VF_CHECK(ret == mpt::MissingBuffer, "cxx:raw:push-full-queue", "push(%zu) on a full queue = %zd; %s", n, ret, rawdesc(w).c_str());
+		exp = 0;
+	} else {
+		VF_CHECK(ret == (ssize_t) exp, "cxx:raw:push-return", "push(%zu) with %zu bytes free = %zd, expected %zu; %s", n, nfree, ret, exp, rawdesc(w).c_str());
+		w.P.insert(w.P.end(), d, d + exp);
+		if (exp < n) {
+			vf_count("state:cxx-raw-partial-accept", 1);
+			if (max && off + len < max && off + len + exp > max) vf_count("state:cxx-raw-partial-accept-wrapping", 1);
+		}
+	}
+	vf_xfree(d, n);
+	raw_check(w, "push");
+	return exp;
+}
+static void raw_commit(Raw &w)
+{
+	vf_at("encode_queue::push");
+	vf_count("encode_queue::push(raw commit)", 1);
+	ssize_t ret = w.eq->push(0, 0);
+	vf_log("raw commit = %zd | %s", ret, rawdesc(w).c_str());
+	VF_CHECK(ret == (ssize_t) (w.F.size() + w.P.size()), "cxx:raw:commit-return", "commit = %zd, queue holds %zu bytes; %s", ret, w.F.size() + w.P.size(), rawdesc(w).c_str());
+	w.committed.insert(w.committed.end(), w.P.begin(), w.P.end());
+	w.F.insert(w.F.end(), w.P.begin(), w.P.end());
+	w.P.clear();
+	raw_check(w, "commit");
+}
+static void raw_rollback(Raw &w, size_t n)
+{
+	vf_at("encode_queue::push");
+	vf_count("encode_queue::push(raw rollback)", 1);
+	ssize_t ret = w.eq->push(n, 0);
+	vf_log("raw rollback(%zu) = %zd | %s", n, ret, rawdesc(w).c_str());
+	if (n == 1 && !w.P.empty()) {
+		VF_CHECK(ret == 0, "cxx:raw:rollback-refused", "push(1, 0) with %zu pending bytes = %zd; %s", w.P.size(), ret, rawdesc(w).c_str());
+		w.P.clear();
+		vf_count("raw:cxx-rollback", 1);
+	} else VF_CHECK(ret < 0, "cxx:raw:rollback-accepted", "push(%zu, 0) with %zu pending bytes = %zd; %s", n, w.P.size(), ret, rawdesc(w).c_str());
+	raw_check(w, "rollback");
+}
+static void raw_trim(Raw &w, vf_rng *r, bool all)
+{
+	size_t done = w.eq->done(), k;
+	switch (all ? 0 : vf_below(r, 6)) {
+	case 0: case 1: k = done; break;
+	case 2: k = done ? 1 + vf_below(r, (uint32_t) done) : 0; break;
+	case 3: k = 0; break;
+	case 4: k = done + 1 + vf_below(r, 3); break;
+	default: k = done > 1 ? done - 1 : done; break;
+	}
+	bytes c0 = content(*w.eq);
+	size_t low = w.eq->max ? w.eq->max - w.eq->off : 0;
+	vf_at("encode_queue::trim");
+	vf_count("encode_queue::trim(raw)", 1);
+	bool ok = w.eq->trim(k);
+	vf_fp_u64(0x7000000 | k);
+	vf_log("raw trim(%zu) = %d | %s", k, ok, rawdesc(w).c_str());
+	if (k > done) {
+		VF_CHECK(!ok, "cxx:raw:trim-accepted-too-much", "trim(%zu) accepted with %zu finished bytes; %s", k, done, rawdesc(w).c_str());
+	} else {
+		if (!ok) VF_CHECK(content(*w.eq) == c0, "cxx:raw:trim-refused-but-removed", "trim(%zu) = false but content changed; %s", k, rawdesc(w).c_str());
+		VF_CHECK(ok, "cxx:raw:trim-refused", "trim(%zu) = false with %zu finished bytes; %s", k, done, rawdesc(w).c_str());
+		/* committed bytes leave exactly once and in order */
+		vf_count("monitor:cxx-raw-wire-compare", 1);
+		VF_CHECK(w.taken + k <= w.committed.size() && !memcmp(c0.data(), w.committed.data() + w.taken, k), "cxx:raw:wire-content",
+		         "bytes trimmed differ from the committed stream at offset %zu (+%zu); %s", w.taken, k, rawdesc(w).c_str());
+		w.taken += k;
+		w.F.erase(w.F.begin(), w.F.begin() + k);
+		if (k && !w.P.empty()) vf_count("state:cxx-raw-trim-with-pending", 1);
+		if (k > low && low) vf_count("state:cxx-raw-trim-crossing-storage-end", 1);
+	}
+	raw_check(w, "trim");
+}
+static void run_raw(uint64_t idx, vf_rng *r)
+{
+	static const uint16_t caps[] = { 0, 1, 2, 3, 4, 5, 8, 12, 16, 17, 32, 33, 64, 100, 256 };
+	EQ eq(0);
+	Raw w = Raw();
+	size_t cap = caps[vf_below(r, sizeof(caps) / sizeof(*caps))], growby = 1 + vf_below(r, vf_chance(r, 1, 2) ? 8 : 300);
+	int nops = vf_range(r, 20, vf_thorough ? 300 : 150);
+	bool partial = false;
+	(void) idx;
+	w.eq = &eq;
+	VF_CHECK(!eq.encoded(), "cxx:raw:encoded", "default encode_queue claims an encoder");
+	if (cap) { eq.base = vf_xalloc(cap); memset(eq.base, 0xEE, cap); eq.max = cap; eq.off = vf_below(r, (uint32_t) cap); }
+	vf_fp_u64(0xdaa); vf_fp_u64(cap); vf_fp_u64(eq.off);
+	vf_log("raw case: max=%zu off=%zu grow=%zu", cap, eq.off, growby);
+	for (int i = 0; i < nops; i++) {
+		size_t nfree = eq.max - eq.len, n;
+		switch (vf_below(r, 12)) {
+		case 0: case 1: case 2:
+			n = vf_chance(r, 1, 3) ? nfree + 1 + vf_below(r, 20) : 1 + vf_below(r, (uint32_t) nfree + 4);
+			if (eq.len > 30000) n = 1;
+			raw_push(w, n, "single");
+			break;
+		case 3: case 4: case 5: {
+			size_t left = vf_chance(r, 1, 2) ? nfree + 1 + vf_below(r, 40) : 1 + vf_below(r, 300);
+			int guard = 0;
+			if (eq.len > 30000) left = 1;
+			while (left && ++guard < 64) {
+				size_t a = raw_push(w, left, "loop");
+				if (a) {
+					if (a < left) partial = true;
+					left -= a;
+					if (left) vf_count("state:cxx-raw-continued-after-partial-accept", 1);
+					continue;
+				}
+				grow(&eq, vf_chance(r, 1, 2) ? growby : left + growby, "raw");
+				raw_check(w, "prepare");
+			}
+			break; }
+		case 6: case 7: raw_commit(w); break;
+		case 8: raw_rollback(w, vf_chance(r, 1, 5) ? 2 + vf_below(r, 5) : 1); break;
+		default: raw_trim(w, r, false); break;
+		}
+	}
+	raw_commit(w);
+	raw_trim(w, r, true);
+	VF_CHECK(w.taken == w.committed.size() && !eq.len, "cxx:raw:conservation", "committed %zu bytes, trimmed %zu, %zu left", w.committed.size(), w.taken, eq.len);
+	vf_count("monitor:cxx-raw-conservation-at-end", 1);
+	if (partial && w.committed.size() > 8) vf_nontrivial();
+	vf_sample("raw mpt::encode_queue max=%zu: %d operations (push loops with partial acceptance, commit, rollback, trim), %zu bytes committed and trimmed", cap, nops, w.committed.size());
+	free(eq.base); eq.base = 0; eq.max = eq.len = eq.off = 0;
+}
+
+static uint64_t n_framed(void) { return vf_thorough ? 400000 : 24000; }
+static uint64_t n_raw(void) { return vf_thorough ? 100000 : 8000; }
+
+uint64_t vf_cases(void) { return n_framed() + n_raw(); }
 
 void vf_case(uint64_t idx, vf_rng *r)
 {
-	run_case(idx, r);
+	if (idx < n_framed()) run_case(idx, r);
+	else run_raw(idx - n_framed(), r);
 }
